@@ -18,8 +18,8 @@ from engine.classes import Classes
 PID = 'C15'
 
 META = {
-    'technique': 'ownership pairing of allocation/release facts derived from macro-expansion stacks (per type-resolved Struct.field, kind and level), call-graph reachability from the deinit API through resolved destructor pointers, set comparison of consumer SRMs vs shut-down SRMs, dominance on API error paths',
-    'text': 'Decides the structural half of teardown completeness: every field that ever receives an allocation, mutex, semaphore or thread has a matching release in the destructor chain reachable from deinit; every pipeline consumer queue is shut down so its thread can leave; thread functions use the shutdown-aware get; the component structure is never freed before its private handle. Quantifies over all teardown points because the destructor chain is the only release path and is checked field by field. Does not measure memory growth, and the fact that some kernel waits cannot be woken is recorded as a finding, not proved absent. Also decided: where cells of a member are allocated in a loop, the release loops of the destructor cover the same index range (bounds compared after canonical expansion and, where they differ, by finite evaluation over the inputs they share).',
+    'technique': 'ownership pairing of allocation/release facts derived from macro-expansion stacks (per type-resolved Struct.field, kind and level), call-graph reachability from the deinit API through resolved destructor pointers, set comparison of consumer SRMs vs shut-down SRMs, dominance on API error paths; escape of run-time allocations into members of pooled records versus the destructor of the pool object; release-before-reallocation on repeatable API entry points; two-sided hand-on of pool wrappers taken from queue entries',
+    'text': 'Decides the structural half of teardown completeness: every field that ever receives an allocation, mutex, semaphore or thread has a matching release in the destructor chain reachable from deinit; every pipeline consumer queue is shut down so its thread can leave; thread functions use the shutdown-aware get; the component structure is never freed before its private handle. Quantifies over all teardown points because the destructor chain is the only release path and is checked field by field. Does not measure memory growth, and the fact that some kernel waits cannot be woken is recorded as a finding, not proved absent. Also decided: where cells of a member are allocated in a loop, the release loops of the destructor cover the same index range (bounds compared after canonical expansion and, where they differ, by finite evaluation over the inputs they share). Also decided: a buffer that pipeline code allocates into a member of a pooled object (picture control sets, packet headers) and frees in a later stage is also released by the destructor of that pool object (teardown while the object is in flight); an API function the application may repeat releases what an earlier call left in the handle before allocating again; a pool wrapper taken out of a queue entry and handed on under a test of a property of that entry is handed on in the other case too.',
     'note': 'decoder memory registered in the memory map (EB_MALLOC_DEC family) is released by the list walk in svt_av1_dec_deinit, which is checked to exist; ownership is field-based (two different objects of one struct type share the verdict)',
     'ref': 'DESIGN.md section 5 C15',
 }
